@@ -31,7 +31,7 @@ def run_property(prop, tier, root, rule_filter=None, write=True, quiet=False, se
                 mod.thorough(repo, chk)
             if selftest and rule_filter is None:
                 from . import selftest as st
-                extra = {'selftest': st.run_for(prop, root)}
+                extra = {'selftest': st.run_for(prop, root, funcs=sorted(chk.analysed_funcs))}
         code, new, listed = chk.finish(seed=int(os.environ.get('VERIF_SEED', '0') or 0), extra=extra,
                                        write=write, quiet=quiet)
         return code, chk
